@@ -604,6 +604,9 @@ func (store *KeyStore) getPublicKeyByFilename(filename string) (*keys.PublicKey,
 
 // GetClientIDEncryptionPublicKey return PublicKey by clientID from cache or load from main store
 func (store *KeyStore) GetClientIDEncryptionPublicKey(clientID []byte) (*keys.PublicKey, error) {
+	if err := validateKeyFileID(clientID); err != nil {
+		return nil, err
+	}
 	fname := store.GetPublicKeyFilePath(
 		// use correct suffix for public keys
 		getPublicKeyFilename(
@@ -637,6 +640,9 @@ func (store *KeyStore) GetPeerPublicKey(id []byte) (*keys.PublicKey, error) {
 // GetPrivateKey reads encrypted client private key from fs, decrypts it with master key and clientID,
 // and returns plaintext private key, or reading/decryption error.
 func (store *KeyStore) GetPrivateKey(id []byte) (*keys.PrivateKey, error) {
+	if err := validateKeyFileID(id); err != nil {
+		return nil, err
+	}
 	fname := getServerKeyFilename(id)
 
 	keyContext := keystore.NewClientIDKeyContext(keystore.PurposeStorageClientPrivateKey, id)
@@ -647,6 +653,9 @@ func (store *KeyStore) GetPrivateKey(id []byte) (*keys.PrivateKey, error) {
 // decrypts it with master key and clientID,
 // and returns plaintext private key, or reading/decryption error.
 func (store *KeyStore) GetServerDecryptionPrivateKey(id []byte) (*keys.PrivateKey, error) {
+	if err := validateKeyFileID(id); err != nil {
+		return nil, err
+	}
 	fname := GetServerDecryptionKeyFilename(id)
 	keyContext := keystore.NewClientIDKeyContext(keystore.PurposeStorageClientPrivateKey, id)
 	return store.getPrivateKeyByFilename(fname, keyContext)
@@ -656,6 +665,9 @@ func (store *KeyStore) GetServerDecryptionPrivateKey(id []byte) (*keys.PrivateKe
 // decrypts them with master key and clientID, and returns plaintext private keys,
 // or reading/decryption error.
 func (store *KeyStore) GetServerDecryptionPrivateKeys(id []byte) ([]*keys.PrivateKey, error) {
+	if err := validateKeyFileID(id); err != nil {
+		return nil, err
+	}
 	filenames, err := store.GetHistoricalPrivateKeyFilenames(GetServerDecryptionKeyFilename(id))
 	if err != nil {
 		return nil, err
@@ -1001,6 +1013,9 @@ func (store *KeyStore) GetPoisonSymmetricKey() ([]byte, error) {
 
 // SaveDataEncryptionKeys save or overwrite decryption keypair for client id
 func (store *KeyStore) SaveDataEncryptionKeys(id []byte, keypair *keys.Keypair) error {
+	if err := validateKeyFileID(id); err != nil {
+		return err
+	}
 	filename := GetServerDecryptionKeyFilename(id)
 
 	keyContext := keystore.NewClientIDKeyContext(keystore.PurposeStorageClientPrivateKey, id)
@@ -1058,6 +1073,9 @@ func (store *KeyStore) Get(keyID string) ([]byte, bool) {
 
 // GetHMACSecretKey return key for hmac calculation according to id
 func (store *KeyStore) GetHMACSecretKey(id []byte) ([]byte, error) {
+	if err := validateKeyFileID(id); err != nil {
+		return nil, err
+	}
 	filename := getHmacKeyFilename(id)
 	keyContext := keystore.NewClientIDKeyContext(keystore.PurposeSearchHMAC, id)
 
@@ -1072,6 +1090,9 @@ func (store *KeyStore) GetHMACSecretKey(id []byte) ([]byte, error) {
 
 // GenerateHmacKey key for hmac calculation in in folder for private keys
 func (store *KeyStore) GenerateHmacKey(id []byte) error {
+	if err := validateKeyFileID(id); err != nil {
+		return err
+	}
 	log.Debugln("Generate HMAC")
 	key, err := keystore.GenerateSymmetricKey()
 	if err != nil {
@@ -1197,6 +1218,9 @@ func (store *KeyStore) loadKeyAndCache(filename string, keyContext keystore.KeyC
 
 // GenerateClientIDSymmetricKey generate symmetric key for specified client id
 func (store *KeyStore) GenerateClientIDSymmetricKey(id []byte) error {
+	if err := validateKeyFileID(id); err != nil {
+		return err
+	}
 	keyName := getClientIDSymmetricKeyName(id)
 
 	keyContext := keystore.NewClientIDKeyContext(keystore.PurposeStorageClientSymmetricKey, id)
@@ -1254,6 +1278,9 @@ func (store *KeyStore) getLatestSymmetricKey(keyname string, keyContext keystore
 
 // GetClientIDSymmetricKeys return symmetric keys for specified client id
 func (store *KeyStore) GetClientIDSymmetricKeys(id []byte) ([][]byte, error) {
+	if err := validateKeyFileID(id); err != nil {
+		return nil, err
+	}
 	keyName := getClientIDSymmetricKeyName(id)
 
 	keyContext := keystore.NewClientIDKeyContext(keystore.PurposeStorageClientSymmetricKey, id)
@@ -1262,6 +1289,9 @@ func (store *KeyStore) GetClientIDSymmetricKeys(id []byte) ([][]byte, error) {
 
 // GetClientIDSymmetricKey return latest symmetric key for encryption by specified client id
 func (store *KeyStore) GetClientIDSymmetricKey(id []byte) ([]byte, error) {
+	if err := validateKeyFileID(id); err != nil {
+		return nil, err
+	}
 	keyName := getClientIDSymmetricKeyName(id)
 
 	keyContext := keystore.NewClientIDKeyContext(keystore.PurposeStorageClientSymmetricKey, id)
@@ -1280,16 +1310,25 @@ func (store *KeyStore) DestroyPoisonSymmetricKey() error {
 
 // DestroyClientIDEncryptionKeyPair destroy server encryption key pair
 func (store *KeyStore) DestroyClientIDEncryptionKeyPair(clientID []byte) error {
+	if err := validateKeyFileID(clientID); err != nil {
+		return err
+	}
 	return store.destroyKeyWithFilename(GetServerDecryptionKeyFilename(clientID))
 }
 
 // DestroyClientIDSymmetricKey destroy private poison key
 func (store *KeyStore) DestroyClientIDSymmetricKey(clientID []byte) error {
+	if err := validateKeyFileID(clientID); err != nil {
+		return err
+	}
 	return store.destroySymmetricKeyWithFilename(GetServerDecryptionKeyFilename(clientID))
 }
 
 // DestroyHmacSecretKey destroy hmac secter key
 func (store *KeyStore) DestroyHmacSecretKey(clientID []byte) error {
+	if err := validateKeyFileID(clientID); err != nil {
+		return err
+	}
 	return store.destroyKeyWithFilename(getHmacKeyFilename(clientID))
 }
 
@@ -1310,6 +1349,9 @@ func (store *KeyStore) DestroyRotatedPoisonSymmetricKey(index int) error {
 
 // DestroyRotatedClientIDEncryptionKeyPair destroy created rotated storage key pair
 func (store *KeyStore) DestroyRotatedClientIDEncryptionKeyPair(clientID []byte, index int) error {
+	if err := validateKeyFileID(clientID); err != nil {
+		return err
+	}
 	fileName := GetServerDecryptionKeyFilename(clientID)
 
 	if err := store.destroyRotatedKeyByIndex(store.GetPrivateKeyFilePath(fileName), index); err != nil {
@@ -1322,12 +1364,18 @@ func (store *KeyStore) DestroyRotatedClientIDEncryptionKeyPair(clientID []byte, 
 
 // DestroyRotatedClientIDSymmetricKey destroy created rotated symmetric key
 func (store *KeyStore) DestroyRotatedClientIDSymmetricKey(clientID []byte, index int) error {
+	if err := validateKeyFileID(clientID); err != nil {
+		return err
+	}
 	keyName := getClientIDSymmetricKeyName(clientID)
 	return store.destroyRotatedKeyByIndex(store.GetPrivateKeyFilePath(keyName), index)
 }
 
 // DestroyRotatedHmacSecretKey destroy created rotated hmac symmetric key
 func (store *KeyStore) DestroyRotatedHmacSecretKey(clientID []byte, index int) error {
+	if err := validateKeyFileID(clientID); err != nil {
+		return err
+	}
 	keyName := getHmacKeyFilename(clientID)
 	return store.destroyRotatedKeyByIndex(store.GetPrivateKeyFilePath(keyName), index)
 }
